@@ -780,7 +780,25 @@ func opTrimNames(s *state) (string, bool) {
 	if auto {
 		label = "TrimNamesAuto"
 		cur := r.PickInt([]int{0, 1, 9, 99})
-		s.ops = append(s.ops, fmt.Sprintf("TrimNamesAuto(cur=%d)", cur))
+		how := ""
+		if r.Chance(0.4) {
+			// the map and the counter already served another set holding (some of) the same names: the successive
+			// alignments of one file are renamed alike
+			other := align.NewSeqBag(align.UNKNOWN)
+			for _, x := range before {
+				if r.Chance(0.7) {
+					other.AddSequence(x.Name, "A", "")
+				}
+			}
+			other.AddSequence("only-in-the-first-set", "A", "")
+			if e := other.TrimNamesAuto(nm, &cur); e != nil {
+				nm = map[string]string{}
+			} else {
+				how = " with the map and counter of a first set"
+				s.c.Count("trimnamesauto-shared-map")
+			}
+		}
+		s.ops = append(s.ops, fmt.Sprintf("TrimNamesAuto(cur=%d)%s", cur, how))
 		err = s.sb.TrimNamesAuto(nm, &cur)
 	} else {
 		s.ops = append(s.ops, fmt.Sprintf("TrimNames(size=%d)", size))
